@@ -179,7 +179,7 @@ func init() {
 	props["C19"] = &propDef{
 		run: func(c *Ctx) {
 			check := func(d *Driver, hc histCase, upto int, f []string) {
-				if r := coqPred(d, "ACC", defaultCfg, f); r != "" {
+				if r := coqPred(d, "ACC", hc.cfg, f); r != "" {
 					c.Report(Finding{Class: "violation", What: "derived accessor clauses failing (Model/Preds.v acc_obs): " + r, Case: hc.Case(upto), Impl: strings.Join(f, " | ")})
 				}
 			}
@@ -197,6 +197,17 @@ func init() {
 			}
 			famHist(c, defaultCfg, 10000*c.Scale, 6, "ssssrcR", true, allButVerrs, "setters+resolve+clone", eachState)
 			famEdgeHist(c, defaultCfg, allButVerrs, "edge-pairs", false, eachState)
+			// the accessor laws do not depend on the configuration (Inv_acc_obs_any): also under the options that
+			// let other host shapes through (lax host parsing, host functions) and change special-ness
+			for _, name := range []string{"lax", "postGsb", "preSem", "lax+postGsb", "specialX", "specialMany", "collapse+lax+skipTrailSlash"} {
+				cfg := cfgFromDesc(name)
+				famParse(c, cfg, 2500*c.Scale, allButVerrs, false, "parse:"+name, func(d *Driver, base *string, input string, io Obs, idx int) {
+					if io.Kind == "U" {
+						check(d, histCase{cfg, base, input, nil, "parse:" + name, idx}, -1, io.Fields)
+					}
+				})
+				famHist(c, cfg, 1500*c.Scale, 5, "ssssrcR", true, allButVerrs, "setters+resolve+clone:"+name, eachState)
+			}
 		},
 		rule: "parse results and every state (both slots) of generated histories of setters, resolutions and clones; the extracted Coq predicate acc_obs (8 clauses) is evaluated on the implementation's getter values",
 	}
